@@ -1022,16 +1022,21 @@ def _find_self(
     param_names: List[str], args: Tuple[Any, ...], kwargs: Dict[str, Any]
 ) -> Any:
     """Find the instance of ``self`` in the arguments."""
+    # The instance is bound to the first parameter of a method. It is called ``self`` only by convention.
+    name = "self"
+    if "self" not in param_names and len(param_names) > 0:
+        name = param_names[0]
+
     instance_i = None
     try:
-        instance_i = param_names.index("self")
+        instance_i = param_names.index(name)
     except ValueError:
         pass
 
     if instance_i is not None and instance_i < len(args):
         return args[instance_i]
 
-    return kwargs["self"]
+    return kwargs[name]
 
 
 def _decorate_new_with_invariants(new_func: CallableT) -> CallableT:
